@@ -260,19 +260,20 @@ TAGS = [None, set(), {"t"}, {"u"}]
 
 
 def h_tags(n: int, g0: int, g1: int, g2: int, g3: int, f0: bool, f1: bool, f2: bool, f3: bool,
-           t0: int, t1: int, t2: int, t3: int) -> bool:
+           t0: int, t1: int, t2: int, t3: int, nots: int) -> bool:
     """
-    pre: 0 <= n <= 4 and 0 <= g0 < 4 and 0 <= g1 < 4 and 0 <= g2 < 4 and 0 <= g3 < 4
+    pre: 0 <= n <= 4 and 0 <= g0 < 4 and 0 <= g1 < 4 and 0 <= g2 < 4 and 0 <= g3 < 4 and 0 <= nots < 16
     post: _
     """
     try:
         nn = ch.sel("n", n, 5)
         raw = [g0, g1, g2, g3]
         gi = [ch.sel("g%d" % k, raw[k], 4) for k in range(nn)]
+        nt = ch.sel("nots", nots, 1 << nn)       # bit k set: event k carries no timestamp
     except ch.Prune:
         return True
     fin = [ch.cbool(x) for x in [f0, f1, f2, f3][:nn]]
-    ts = [ch.V(t) for t in [t0, t1, t2, t3]]
+    ts = [None if (nt >> k) & 1 else ch.V(t) for k, t in enumerate([t0, t1, t2, t3])]
     evs = []
     for k in range(nn):
         tg = TAGS[gi[k]]
@@ -280,7 +281,7 @@ def h_tags(n: int, g0: int, g1: int, g2: int, g3: int, f0: bool, f1: bool, f2: b
                         test_tags=None if tg is None else set(tg), timestamp=ts[k]))
     o = run_events(evs, check_extended=False)
     ch.LAST.update(o)
-    return ch.finish(not o["problems"], dict(tags=tuple(gi), final=tuple(fin)), nontrivial=nn >= 2, sym=("timestamps",))
+    return ch.finish(not o["problems"], dict(tags=tuple(gi), final=tuple(fin), nots=nt), nontrivial=nn >= 2, sym=("timestamps",))
 
 
 # --- H4 joint ---------------------------------------------------------------------------------
@@ -357,8 +358,11 @@ HARNESSES = [
             bounds={"quick": "<= 4 events over {file f/g of test a, file f of test b (two mime types), final status of a / b} with "
                              "symbolic chunk bytes of length <= 1 each (any byte value, empty allowed); binary mime types"},
             rule="non-trivial = at least 2 events", sym=("b0", "b1", "b2", "b3"), twin_fix={"n": 2}),
-    Harness("tags", h_tags, lambda tier: [({"n": n}, 600) for n in range(5)],
-            bounds={"quick": "<= 4 events for one test with tags in {None, empty, {t}, {u}}, interim or final status, symbolic opaque timestamps"},
+    Harness("tags", h_tags, lambda tier: [({"n": n}, 600) for n in range(4)] + [({"n": 4, "g0": g}, 900) for g in range(4)] if tier != "quick" else
+            [({"n": n}, 600) for n in range(3)] + [({"n": 3, "g0": g}, 900) for g in range(4)],
+            bounds={"quick": "<= 3 events for one test with tags in {None, empty, {t}, {u}}, interim or final status, each event with a symbolic "
+                             "opaque timestamp or without timestamp",
+                    "thorough": "<= 4 events"},
             rule="non-trivial = at least 2 events", sym=("t0", "t1", "t2", "t3"), twin_fix={"n": 2}),
     Harness("joint", h_joint, _joint_shards,
             bounds={"quick": "<= 2 events varying all groups together: id {None,a} x route {None,0} x status {None,inprogress,success,fail} x "
